@@ -833,7 +833,22 @@ def finding_key(case, res):
 
 
 MANIFEST = {
-    "text": "filled in below",
-    "note": "filled in below",
-    "technique": "Lean 4 theorems about executable models + differential correspondence with the real functions + set-theoretic and exact functional-SCM oracles",
+    "text": ("Partial proof. Lean theorems about the executable models of ancestor_utils.py / api.py (tied to the code by the "
+             "correspondence check on every run): minimisation is total on graph variables (F8a fixed), well formed, equal to the "
+             "published ||Y_x|| (T = X n An(Y) in G with edges into X removed), idempotent, and - for EVERY functional SCM "
+             "compatible with the graph, every reading of the value symbols, every noise point - the minimised variable is the "
+             "same random variable (minimize_same_rv, induction along the evaluation order); counterfactual ancestors equal "
+             "Def. 2.1 (sound, complete, total); is_counterfactual_factor_form and convert_to_counterfactual_factor_form meet "
+             "Def. 3.4. Clauses WITHOUT a full theorem, decided by correspondence + oracle only: SIMPLIFY preserves probability / "
+             "None only for probability 0, ancestral components = Def. 4.2, shape and value of the ctf-factor factorisation "
+             "(see the OPEN blocks in Props/C19.lean). The oracle evaluates them exactly on sampled functional SCMs and "
+             "reports five open findings (SIMPLIFY rewrites the tautology Y_y=y to Y=y; the factorisation cannot express "
+             "multi-world queries, captures literal subscripts, and mislabels parents that are outcomes with value +P/None)."),
+    "note": ("Trusted: Lean kernel; axioms propext/Classical.choice/Quot.sound; the hand-written models and the specification "
+             "files Spec/CtfSpec.lean and Spec/Fscm.lean (functional SCMs with shared noise, owned by the cf family); the "
+             "correspondence is differential sampling (about 95 000 structured cases per quick run), not proof. Readings fixed "
+             "by the specification: '-N'/'+N' are two distinct values of N; Def. 2.1 without removing Y itself; Def. 4.2 "
+             "'not disjoint' on graph vertices; a '-N' subscript bound by the enclosing Sum denotes the bound value."),
+    "technique": ("Lean 4 theorems (closure = ReflTransGen, induction along the SCM evaluation order) about executable models + "
+                  "differential correspondence with the real functions + set-theoretic and exact functional-SCM oracles"),
 }
